@@ -8,7 +8,7 @@ from . import hirx as H
 from . import qeval as Q
 from .core import Ob, ok, bad, undecided, short
 from .facts import norm_path, REPO
-from .rules_hir import walk, _may_panic
+from .rules_hir import walk, _may_panic, callgraph
 from .rules_c06 import returns_err, is_err_ctor
 
 REGISTRY = []
@@ -315,7 +315,7 @@ def rule_display(ctx):
     if hid:
         for src in fn.binds.get(hid, []):
             if src[0] == 'expr':
-                for n in walk(src[1]):
+                for _f, n in H.deep_nodes(ctx, fn, src[1], 2):
                     if n['k'] == 'mcall':
                         loc_methods.add(n['method'])
     badm = loc_methods & {'last', 'rev', 'next_back', 'max', 'min', 'nth', 'skip', 'max_by_key', 'min_by_key', 'pop'}
@@ -365,9 +365,12 @@ def rule_id_helper(ctx):
     ename = 'graphql_client::serde_with::' + helper_enum['name']
     # conversion: Int(n) -> n.to_string(), Str(s) -> s
     conv = [fn for fn in c.all_fns() if 'From<' + ename in (fn.d.get('impl_trait') or '') or ('std::convert::From<%s>' % ename) in norm_path(fn.path)]
-    conv = [fn for fn in c.all_fns() if fn.path.endswith('::from') and ename in (fn.d.get('impl_trait') or '') + fn.path and not fn.from_macro]
+    # any function of the crate taking exactly the helper enum and returning String (a From impl, an inherent method, a free fn)
+    conv = [fn for fn in c.all_fns() if not fn.from_macro and [x.replace('&', '').strip() for x in fn.d.get('inputs', [])] == [ename]
+            and fn.d.get('output', '').replace('std::string::String', 'String').replace('alloc::string::String', 'String') == 'String']
+    conv_paths = {norm_path(fn.path) for fn in conv}
     if not conv:
-        obs.append(bad('ID-HELPER', 'conversion/floor', 'anchor-missing: From<helper> for String not found', loc))
+        obs.append(bad('ID-HELPER', 'conversion/floor', 'anchor-missing: no function converting the helper enum into String found', loc))
     else:
         fn = conv[0]
         t = ctx.pv.eval(fn, fn.body, H.sym_env(fn), 0)
@@ -418,8 +421,8 @@ def rule_id_helper(ctx):
         else:
             obs.append(ok('ID-HELPER', name + '/deserializes', 'deserializes %s%s' % ('Option<' if needs_option else '', helper_enum['name']) + ('>' if needs_option else ''), fn.loc))
         # conversion applied: String::from / Into
-        conv_calls = [n for n in walk(fn.body) if (n['k'] == 'path' and n['res'].get('path', '').endswith('From::from')) or
-                      (n['k'] in ('call', 'mcall') and any(pp.endswith(('From::from', 'Into::into', '::from')) for pp in H.callee_paths(n)))]
+        conv_calls = [n for n in walk(fn.body) if (n['k'] == 'path' and (n['res'].get('path', '').endswith('From::from') or norm_path(n['res'].get('path', '')) in conv_paths)) or
+                      (n['k'] in ('call', 'mcall') and any(pp.endswith(('From::from', 'Into::into', '::from')) or norm_path(pp) in conv_paths for pp in H.callee_paths(n)))]
         if not conv_calls:
             obs.append(bad('ID-HELPER', name + '/converts', 'no conversion of the helper enum into String', fn.loc, ''))
     return obs
@@ -458,10 +461,24 @@ def rule_derive_options(ctx):
     if fn is None:
         return [bad('ATTR-PLUMB', 'floor', 'anchor-missing: build_graphql_client_derive_options not found')]
     setters = {}
-    for n in H.calls_in(fn):
-        if n['k'] == 'mcall' and n['method'].startswith('set_') and ctx.pv.local_fns(n.get('callee')):
-            setters.setdefault(n['method'], []).append(n)
+    owner = {}
+    # the options builder and the helper fns of the derive crate it delegates to
+    cg_ = callgraph(ctx)
+    scope = [fn] + [f_ for f_ in (ctx.fn_by_key(k_) for k_ in sorted(cg_.reachable([fn.key])) if k_ != fn.key)
+                    if f_ is not None and not f_.from_macro and f_.key.startswith('derive::') and '::attributes::' not in f_.path]
+    for f_ in scope:
+        for n in H.calls_in(f_):
+            if n['k'] == 'mcall' and n['method'].startswith('set_') and ctx.pv.local_fns(n.get('callee')):
+                setters.setdefault(n['method'], []).append(n)
+                owner[id(n)] = f_
     env = H.sym_env(fn)
+    envs_ = {}
+
+    def env_of(n_):
+        f_ = owner.get(id(n_), fn)
+        if f_.key not in envs_:
+            envs_[f_.key] = H.sym_env(f_)
+        return f_, envs_[f_.key]
     for setter, (extractor, key) in ATTR_TABLE.items():
         inst = 'derive/' + setter
         calls = setters.get(setter, [])
@@ -470,7 +487,8 @@ def rule_derive_options(ctx):
                            'the attribute is silently ignored'))
             continue
         n = calls[0]
-        t = ctx.pv.eval(fn, n['args'][0], env, 0)
+        nf, nenv = env_of(n)
+        t = ctx.pv.eval(nf, n['args'][0], nenv, 0)
         cs = _calls_in_term(t)
         hit = [(p, a) for p, a in cs if p.endswith('attributes::' + extractor)]
         others = [(p, a) for p, a in cs if 'attributes::' in p and not p.endswith('attributes::' + extractor)]
@@ -491,7 +509,7 @@ def rule_derive_options(ctx):
         else:
             obs.append(ok('ATTR-PLUMB', inst, '%s <- %s(%s)' % (setter, extractor, key or 'wrapper'), n.get('sp', '')))
         # optional setters only when extraction succeeded
-        pcs = P.path_conds(fn, n)
+        pcs = P.path_conds(nf, n)
         if setter in ('set_variables_derives', 'set_response_derives', 'set_custom_scalars_module', 'set_extern_enums', 'set_deprecation_strategy', 'set_normalization'):
             if pcs:
                 obs.append(ok('ATTR-DEFAULTS', inst, 'setter runs only when the key was found/valid; otherwise the default stays', n.get('sp', '')))
@@ -532,7 +550,8 @@ def rule_derive_options(ctx):
         if not calls:
             obs.append(bad('ATTR-PLUMB', inst, '%s is never called' % setter, fn.loc, 'struct name / visibility not applied'))
             continue
-        t = ctx.pv.eval(fn, calls[0]['args'][0], env, 0)
+        nf, nenv = env_of(calls[0])
+        t = ctx.pv.eval(nf, calls[0]['args'][0], nenv, 0)
         if TM.fields_in(t) == {want}:
             obs.append(ok('ATTR-PLUMB', inst, '%s <- %s' % (setter, want), calls[0].get('sp', '')))
         else:
